@@ -135,7 +135,7 @@ fn run_case(cx: &CaseCtx, rep: &mut Report) {
 	// fixtures
 	let specs: Vec<(&'static str, TileFormat, Comp)> = match group {
 		0 => vec![("versatiles", TileFormat::PBF, Comp::None), ("versatiles", TileFormat::PBF, Comp::Gzip), ("versatiles", TileFormat::PBF, Comp::Brotli), ("versatiles", TileFormat::JSON, Comp::Gzip)],
-		1 => vec![("versatiles", TileFormat::PNG, Comp::None), ("versatiles", TileFormat::JPG, Comp::Gzip), ("versatiles", TileFormat::WEBP, Comp::Brotli), ("versatiles", TileFormat::BIN, Comp::Brotli), ("versatiles", TileFormat::AVIF, Comp::None)],
+		1 => vec![("versatiles", TileFormat::PNG, Comp::None), ("versatiles", TileFormat::JPG, Comp::Gzip), ("versatiles", TileFormat::WEBP, Comp::Brotli), ("versatiles", TileFormat::BIN, Comp::Brotli), ("versatiles", TileFormat::AVIF, Comp::None), ("versatiles", TileFormat::BIN, Comp::None)],
 		3 => vec![("mislabelled-directory", TileFormat::PBF, if cx.case % 4 < 2 { Comp::Gzip } else { Comp::Brotli }), ("mislabelled-directory", TileFormat::JSON, Comp::Gzip)],
 		_ => vec![("mbtiles", TileFormat::PBF, Comp::Gzip), ("pmtiles", TileFormat::PNG, Comp::None), ("pmtiles", TileFormat::PBF, Comp::Brotli), ("tar", TileFormat::PBF, Comp::Gzip), ("directory", TileFormat::GEOJSON, Comp::Brotli), ("mbtiles", TileFormat::WEBP, Comp::None), ("foreign-versatiles", TileFormat::PBF, Comp::Gzip), ("foreign-versatiles", TileFormat::PNG, Comp::None)],
 	};
@@ -188,7 +188,25 @@ fn run_case(cx: &CaseCtx, rep: &mut Report) {
 			continue;
 		}
 		let opts = GenOpts { max_tiles: 60, max_level: 31, formats: vec![(*f, *c)], really_compress: true, ..Default::default() };
-		let ts = gen::gen_tileset(&mut rng, &opts);
+		let mut ts = gen::gen_tileset(&mut rng, &opts);
+		// two more tiles next to the first one: where the source is compressed, a tile whose decoded content is
+		// empty (the stored stream is not); where it is not, tiles that are themselves gzip files / begin with the
+		// gzip magic (opaque data carried as it is)
+		if let Some(k0) = ts.tiles.keys().next().cloned() {
+			let m = ((1u64 << k0.0) - 1) as u32;
+			let free: Vec<Key> = [(k0.0, (k0.1 + 1).min(m), k0.2), (k0.0, k0.1, (k0.2 + 1).min(m)), (k0.0, k0.1.saturating_sub(1), k0.2), (k0.0, k0.1, k0.2.saturating_sub(1))].into_iter().filter(|k| !ts.tiles.contains_key(k)).collect();
+			let extra: Vec<Vec<u8>> = if *c != Comp::None {
+				vec![crate::comp::compress(b"", *c)]
+			} else if *f == TileFormat::BIN {
+				vec![crate::comp::gzip(b"a tile that is a gzip file: opaque bytes, carried as they are"), [&[0x1fu8, 0x8b, 0x08, 0x00][..], &rng.bytes(30)[..]].concat()]
+			} else {
+				vec![]
+			};
+			for (k, v) in free.into_iter().zip(extra) {
+				ts.tiles.insert(k, v);
+				rep.count("tiles_with_empty_content_or_gzip_magic", 1);
+			}
+		}
 		let sub = dir.join(format!("s{i}"));
 		let _ = std::fs::create_dir_all(&sub);
 		let path = container_path(&sub, container);
